@@ -305,6 +305,37 @@ pub struct ConnectRec {
     pub t_close: u64,
 }
 
+/// One datagram-level event on one of sozu's simulated UDP sockets, as the simulated network sees it
+/// (C19 shell tier): the wire tap. `seq` is a run-wide order shared with the scripted UDP peers
+/// (`World::next_useq`).
+#[derive(Clone, Debug)]
+pub struct UdpEv {
+    pub seq: u64,
+    pub t: u64,
+    /// one of the UDP_* constants
+    pub kind: u8,
+    pub fd: i32,
+    /// simulated address the socket is bound to
+    pub local: SocketAddr,
+    /// SEND: destination; RECV: source; CONNECT: the connected peer
+    pub peer: Option<SocketAddr>,
+    /// SEND: bytes sozu asked to send; RECV: size of sozu's buffer
+    pub len: usize,
+    /// raw result: bytes moved, or -errno (what sozu was told)
+    pub res: i64,
+    /// SEND only: 0 handed to the kernel (or its error), 1 nobody bound at the destination (UDP: the call succeeds,
+    /// the datagram is lost), 2 EAGAIN injected by the simulator, 3 ECONNREFUSED reported for an earlier lost datagram,
+    /// 4 EAGAIN because the simulated send buffer towards this peer is full (`World::udp_qlimit`)
+    pub note: u8,
+    /// first bytes of the datagram (`World::udp_head_len`)
+    pub head: Vec<u8>,
+}
+pub const UDP_BIND: u8 = 1;
+pub const UDP_CONNECT: u8 = 2;
+pub const UDP_CLOSE: u8 = 3;
+pub const UDP_SEND: u8 = 4;
+pub const UDP_RECV: u8 = 5;
+
 pub struct World {
     /// unique per World instance in this OS process (see BATON)
     pub generation: u64,
@@ -371,6 +402,35 @@ pub struct World {
     pub spin_breaks: u64,
     /// every connect() of sozu to a simulated TCP address, in order
     pub connect_log: Vec<ConnectRec>,
+    // ---- simulated UDP (AF_UNIX SOCK_DGRAM stand-ins; C19 shell tier)
+    /// wire tap of sozu's UDP sockets
+    pub udp_log: Vec<UdpEv>,
+    pub udp_seq: u64,
+    /// sozu's simulated UDP sockets: fd -> simulated local address
+    pub udp_local: BTreeMap<i32, SocketAddr>,
+    /// "connected" UDP sockets: fd -> simulated peer (a logical connection kept here: the stand-in stays unconnected,
+    /// sends are addressed per datagram and receives are filtered by source, as UDP does)
+    pub udp_peer: BTreeMap<i32, SocketAddr>,
+    /// a datagram to a port nobody listens on comes back as ECONNREFUSED on the next call on a connected socket
+    pub udp_icmp: bool,
+    udp_pending_err: BTreeMap<i32, i32>,
+    /// per mille: sozu's UDP send reports EAGAIN (local send buffer full), with a forced re-arm later
+    pub udp_eagain_pm: u32,
+    pub udp_head_len: usize,
+    /// datagrams from a third party dropped in front of a connected socket
+    pub udp_foreign_dropped: u64,
+    /// highest number of sozu UDP sockets open at once
+    pub udp_max_open: usize,
+    /// Simulated send-buffer accounting towards scripted peers (0 = off): a datagram sozu sent stays charged until the
+    /// peer reads it; with this many unread datagrams at a peer's socket sozu's next send there reports EAGAIN, and the
+    /// socket is re-armed (a fresh EPOLLOUT edge) when the peer reads. Must stay below net.unix.max_dgram_qlen: the
+    /// kernel's own receiver-full EAGAIN frees an skb per failed attempt, which reports EPOLLOUT again at once (a spin
+    /// no UDP socket would show).
+    pub udp_qlimit: usize,
+    udp_qlen: BTreeMap<SocketAddr, usize>,
+    udp_waiting: BTreeMap<i32, std::collections::BTreeSet<SocketAddr>>,
+    /// scripted peers' datagram sockets: fd -> simulated address
+    peer_udp: BTreeMap<i32, SocketAddr>,
 }
 
 impl World {
@@ -423,6 +483,20 @@ impl World {
             eagain_streak: 0,
             spin_breaks: 0,
             connect_log: Vec::new(),
+            udp_log: Vec::new(),
+            udp_seq: 0,
+            udp_local: BTreeMap::new(),
+            udp_peer: BTreeMap::new(),
+            udp_icmp: false,
+            udp_pending_err: BTreeMap::new(),
+            udp_eagain_pm: 0,
+            udp_head_len: 96,
+            udp_foreign_dropped: 0,
+            udp_max_open: 0,
+            udp_qlimit: 0,
+            udp_qlen: BTreeMap::new(),
+            udp_waiting: BTreeMap::new(),
+            peer_udp: BTreeMap::new(),
         })
     }
 
@@ -950,6 +1024,12 @@ impl World {
         if let Some((ep, _, data)) = self.epoll_regs.get(&fd) { let d = (*ep, *data); if self.token_fd.get(&d) == Some(&fd) { self.token_fd.remove(&d); } }
         self.epoll_regs.remove(&fd);
         if self.sozu_fds.contains_key(&fd) { self.logf(|| format!("sozu close fd={fd}")); }
+        if let Some(local) = self.udp_local.remove(&fd) {
+            let peer = self.udp_peer.remove(&fd);
+            self.udp_pending_err.remove(&fd);
+            self.udp_waiting.remove(&fd);
+            self.udp_ev(UDP_CLOSE, fd, local, peer, 0, 0, 0, &[]);
+        }
         if self.sozu_fds.remove(&fd).is_some() {
             self.tr(0xCC, 0);
         }
@@ -975,6 +1055,7 @@ impl World {
     }
 
     pub fn on_bind(&mut self, fd: i32, addr: SocketAddr, ty: i32) -> i32 {
+        if ty == libc::SOCK_DGRAM { return self.on_udp_bind(fd, addr); }
         let fl = sys::fcntl(fd, libc::F_GETFL, 0).unwrap_or(0);
         let nb = if fl & libc::O_NONBLOCK as i64 != 0 { libc::SOCK_NONBLOCK } else { 0 };
         let nfd = match sys::socket(libc::AF_UNIX, ty | nb | libc::SOCK_CLOEXEC, 0) {
@@ -1011,28 +1092,224 @@ impl World {
         0
     }
 
-    pub fn on_udp_connect(&mut self, fd: i32, dst: SocketAddr) -> i32 {
-        // UDP "connect": point the AF_UNIX datagram stand-in at the simulated peer
+    // ---------- simulated UDP: AF_UNIX SOCK_DGRAM stand-ins bound to abstract names that carry the simulated
+    // address. AF_UNIX datagrams are reliable and ordered and the sender sees EAGAIN when the receiver's queue is
+    // full (net.unix.max_dgram_qlen): loss, duplication and reordering are injected by the scripted peers only.
+
+    pub fn next_useq(&mut self) -> u64 { self.udp_seq += 1; self.udp_seq }
+
+    fn udp_ev(&mut self, kind: u8, fd: i32, local: SocketAddr, peer: Option<SocketAddr>, len: usize, res: i64, note: u8, data: &[u8]) {
+        let seq = self.next_useq();
+        let head = data[..data.len().min(self.udp_head_len)].to_vec();
+        self.trace.mix(0x0D00 | kind as u64 | ((note as u64) << 16));
+        self.trace.mix((res as u64) ^ ((len as u64) << 32));
+        self.trace.mix(local.port() as u64 ^ peer.map_or(0, |p| (p.port() as u64) << 16));
+        if self.log_on {
+            let k = match kind { UDP_BIND => "bind", UDP_CONNECT => "connect", UDP_CLOSE => "close", UDP_SEND => "send", _ => "recv" };
+            let h: String = head.iter().take(12).map(|b| format!("{b:02x}")).collect();
+            self.logf(|| format!("sozu udp {k} fd={fd} local={local} peer={peer:?} len={len} -> {res} note={note} [{h}]"));
+        }
+        let t = self.now;
+        self.udp_log.push(UdpEv { seq, t, kind, fd, local, peer, len, res, note, head });
+    }
+
+    pub fn is_udp(&self, fd: i32) -> bool { self.udp_local.contains_key(&fd) }
+
+    /// bind() of a datagram socket. Port 0 gets a fresh simulated port from the run's counter (no PRNG); a wildcard
+    /// address with port 0 (the ephemeral bind in front of a UDP connect()) is named after the loopback address,
+    /// as `on_connect` names sozu's side of a TCP connection.
+    pub fn on_udp_bind(&mut self, fd: i32, addr: SocketAddr) -> i32 {
         let fl = sys::fcntl(fd, libc::F_GETFL, 0).unwrap_or(0);
         let nb = if fl & libc::O_NONBLOCK as i64 != 0 { libc::SOCK_NONBLOCK } else { 0 };
-        let already_unix = sys::getsockname_un(fd).is_ok();
-        if !already_unix {
-            let nfd = match sys::socket(libc::AF_UNIX, libc::SOCK_DGRAM | nb | libc::SOCK_CLOEXEC, 0) {
-                Ok(f) => f,
-                Err(e) => { sys::set_errno(e); return -1; }
-            };
-            let local: SocketAddr = format!("127.0.0.1:{}", self.ephemeral()).parse().unwrap();
-            let lname = self.udp_name(&local);
-            let _ = sys::bind_abstract(nfd, &lname);
-            let _ = sys::dup3(nfd, fd, libc::O_CLOEXEC);
-            sys::close(nfd);
-            self.sozu_fds.insert(fd, 'u');
+        let nfd = match sys::socket(libc::AF_UNIX, libc::SOCK_DGRAM | nb | libc::SOCK_CLOEXEC, 0) {
+            Ok(f) => f,
+            Err(e) => { sys::set_errno(e); return -1; }
+        };
+        let auto = addr.port() == 0;
+        let mut a = addr;
+        let mut tries = 0;
+        loop {
+            if auto {
+                let ip: std::net::IpAddr = if !addr.ip().is_unspecified() { addr.ip() } else if addr.is_ipv4() { std::net::Ipv4Addr::LOCALHOST.into() } else { std::net::Ipv6Addr::LOCALHOST.into() };
+                a = SocketAddr::new(ip, self.ephemeral());
+            }
+            let name = self.udp_name(&a);
+            match sys::bind_abstract(nfd, &name) {
+                Ok(()) => break,
+                Err(e) if e == libc::EADDRINUSE && auto && tries < 64 => { tries += 1; }
+                Err(e) => { sys::close(nfd); sys::set_errno(e); return -1; }
+            }
         }
-        let name = self.udp_name(&dst);
-        match sys::connect_abstract(fd, &name) {
-            Ok(()) => 0,
-            Err(e) => { sys::set_errno(e); -1 }
+        let _ = sys::dup3(nfd, fd, libc::O_CLOEXEC);
+        sys::close(nfd);
+        self.sozu_fds.insert(fd, 'u');
+        self.udp_local.insert(fd, a);
+        if self.udp_local.len() > self.udp_max_open { self.udp_max_open = self.udp_local.len(); }
+        self.tr(0xB1, addr.port() as u64);
+        self.udp_ev(UDP_BIND, fd, a, None, 0, 0, 0, &[]);
+        0
+    }
+
+    /// UDP connect(): always succeeds and only fixes the peer (whether or not anybody is bound there). The stand-in
+    /// socket stays unconnected: `udp_sendto` addresses every datagram and `udp_recvfrom` drops datagrams of other
+    /// sources, so a peer that appears, disappears or re-binds later behaves as a UDP port does.
+    pub fn on_udp_connect(&mut self, fd: i32, dst: SocketAddr) -> i32 {
+        if !self.udp_local.contains_key(&fd) {
+            let unspec: SocketAddr = if dst.is_ipv4() { (std::net::Ipv4Addr::UNSPECIFIED, 0).into() } else { (std::net::Ipv6Addr::UNSPECIFIED, 0).into() };
+            let r = self.on_udp_bind(fd, unspec);
+            if r != 0 { return r; }
         }
+        self.udp_peer.insert(fd, dst);
+        let local = self.udp_local[&fd];
+        self.udp_ev(UDP_CONNECT, fd, local, Some(dst), 0, 0, 0, &[]);
+        0
+    }
+
+    fn udp_preempt(&mut self) {
+        if self.hook_depth == 0 && self.cfg.preempt_pm > 0 && self.sched.below(1000) < self.cfg.preempt_pm as u64 {
+            self.hook_depth += 1;
+            self.stats.preemptions += 1;
+            let k = 1 + self.sched.below(3) as u32;
+            self.run_actors(k);
+            self.hook_depth -= 1;
+        }
+    }
+
+    /// send()/sendto()/sendmsg() by sozu on a simulated UDP socket. Returns the raw result (bytes or -errno).
+    /// `dst` None = the connected peer. Nobody bound at the destination: the call succeeds and the datagram is
+    /// lost (UDP); with `udp_icmp` the next call on a connected socket reports ECONNREFUSED once.
+    pub fn udp_sendto(&mut self, fd: i32, data: &[u8], flags: i32, dst: Option<SocketAddr>) -> i64 {
+        let Some(local) = self.udp_local.get(&fd).copied() else { return -(libc::EBADF as i64) };
+        self.udp_preempt();
+        let connected = dst.is_none();
+        let Some(to) = dst.or_else(|| self.udp_peer.get(&fd).copied()) else { return -(libc::EDESTADDRREQ as i64) };
+        self.stats.sozu_writes += 1;
+        if connected {
+            if let Some(e) = self.udp_pending_err.remove(&fd) {
+                self.udp_ev(UDP_SEND, fd, local, Some(to), data.len(), -(e as i64), 3, data);
+                return -(e as i64);
+            }
+        }
+        if self.udp_eagain_pm > 0 && self.hook_depth == 0 && self.sched.below(1000) < self.udp_eagain_pm as u64 {
+            self.stats.eagain_injected += 1;
+            self.stats.fault("udp_send_eagain");
+            let d = self.sched.below(3) * 50_000;
+            self.rearm.insert(fd, self.now + d);
+            self.udp_ev(UDP_SEND, fd, local, Some(to), data.len(), -(libc::EAGAIN as i64), 2, data);
+            return -(libc::EAGAIN as i64);
+        }
+        if self.udp_qlimit > 0 && self.udp_qlen.get(&to).copied().unwrap_or(0) >= self.udp_qlimit {
+            // the simulated send buffer is full of datagrams this peer has not read yet
+            self.stats.sozu_write_eagain += 1;
+            self.stats.fault("udp_send_buffer_full");
+            self.udp_waiting.entry(fd).or_default().insert(to);
+            self.udp_ev(UDP_SEND, fd, local, Some(to), data.len(), -(libc::EAGAIN as i64), 4, data);
+            return -(libc::EAGAIN as i64);
+        }
+        let name = self.udp_name(&to);
+        let (sa, sl) = sys::abstract_addr(&name);
+        let r = unsafe { sys::sc!(libc::SYS_sendto, fd, data.as_ptr(), data.len(), flags | libc::MSG_NOSIGNAL, &sa as *const _, sl) };
+        if r >= 0 {
+            *self.udp_qlen.entry(to).or_insert(0) += 1;
+            self.udp_ev(UDP_SEND, fd, local, Some(to), data.len(), r, 0, data);
+            return r;
+        }
+        let e = (-r) as i32;
+        if e == libc::ECONNREFUSED || e == libc::ENOENT || e == libc::EPERM || e == libc::ENOTCONN {
+            self.stats.fault("udp_sent_to_dead_port");
+            if self.udp_icmp && connected { self.udp_pending_err.insert(fd, libc::ECONNREFUSED); }
+            self.udp_ev(UDP_SEND, fd, local, Some(to), data.len(), data.len() as i64, 1, data);
+            return data.len() as i64;
+        }
+        if e == libc::EAGAIN { self.stats.sozu_write_eagain += 1; }
+        self.udp_ev(UDP_SEND, fd, local, Some(to), data.len(), r, 0, data);
+        r
+    }
+
+    /// recv()/recvfrom()/recvmsg() by sozu on a simulated UDP socket: raw result and the simulated source.
+    pub fn udp_recvfrom(&mut self, fd: i32, buf: *mut u8, len: usize, flags: i32) -> (i64, Option<SocketAddr>) {
+        let Some(local) = self.udp_local.get(&fd).copied() else { return (-(libc::EBADF as i64), None) };
+        self.udp_preempt();
+        let want = self.udp_peer.get(&fd).copied();
+        self.stats.sozu_reads += 1;
+        if want.is_some() {
+            if let Some(e) = self.udp_pending_err.remove(&fd) {
+                self.udp_ev(UDP_RECV, fd, local, want, len, -(e as i64), 3, &[]);
+                return (-(e as i64), None);
+            }
+        }
+        loop {
+            let mut sa: libc::sockaddr_un = unsafe { std::mem::zeroed() };
+            let mut sl: u32 = std::mem::size_of::<libc::sockaddr_un>() as u32;
+            let r = unsafe { sys::sc!(libc::SYS_recvfrom, fd, buf, len, flags, &mut sa as *mut _, &mut sl as *mut u32) };
+            if r < 0 {
+                if r == -(libc::EAGAIN as i64) { self.stats.sozu_read_eagain += 1; }
+                self.udp_ev(UDP_RECV, fd, local, None, len, r, 0, &[]);
+                return (r, None);
+            }
+            let src = World::parse_name(&sys::un_name(&sa, sl));
+            if let Some(p) = want {
+                if src != Some(p) {
+                    // a connected UDP socket only receives from its peer
+                    self.udp_foreign_dropped += 1;
+                    self.stats.fault("udp_foreign_source_dropped");
+                    if flags & libc::MSG_PEEK != 0 { let mut scratch = [0u8; 1]; unsafe { sys::sc!(libc::SYS_recvfrom, fd, scratch.as_mut_ptr(), 1, 0, 0, 0) }; }
+                    continue;
+                }
+            }
+            let got = unsafe { std::slice::from_raw_parts(buf as *const u8, (r as usize).min(len)) };
+            let got = got.to_vec();
+            self.udp_ev(UDP_RECV, fd, local, src, len, r, 0, &got);
+            return (r, src);
+        }
+    }
+
+    // ---------- scripted UDP peers
+    /// A datagram socket of a scripted peer at a simulated address.
+    pub fn peer_udp_socket(&mut self, addr: &SocketAddr) -> Result<i32, i32> {
+        let fd = sys::socket(libc::AF_UNIX, libc::SOCK_DGRAM | libc::SOCK_NONBLOCK | libc::SOCK_CLOEXEC, 0)?;
+        let name = self.udp_name(addr);
+        if let Err(e) = sys::bind_abstract(fd, &name) { sys::close(fd); return Err(e); }
+        self.peer_udp.insert(fd, *addr);
+        self.udp_qlen.remove(addr);
+        Ok(fd)
+    }
+    /// A scripted peer closes its socket: what sozu had in flight towards it is gone, senders parked on it wake.
+    pub fn peer_udp_close(&mut self, fd: i32) {
+        if let Some(a) = self.peer_udp.remove(&fd) {
+            self.udp_qlen.remove(&a);
+            self.udp_wake_waiters(&a);
+        }
+        sys::close(fd);
+    }
+    fn udp_wake_waiters(&mut self, a: &SocketAddr) {
+        let now = self.now;
+        let fds: Vec<i32> = self.udp_waiting.iter().filter(|(_, s)| s.contains(a)).map(|(fd, _)| *fd).collect();
+        for fd in fds {
+            if let Some(s) = self.udp_waiting.get_mut(&fd) { s.remove(a); if s.is_empty() { self.udp_waiting.remove(&fd); } }
+            self.rearm.entry(fd).or_insert(now);
+            self.tr(0x0DAA, a.port() as u64);
+        }
+    }
+    /// Err(ECONNREFUSED): nobody is bound at `dst` (the datagram is lost); Err(EAGAIN): the receiver's queue is full.
+    pub fn peer_udp_sendto(&mut self, fd: i32, dst: &SocketAddr, data: &[u8]) -> Result<usize, i32> {
+        let name = self.udp_name(dst);
+        let (sa, sl) = sys::abstract_addr(&name);
+        let r = unsafe { sys::sc!(libc::SYS_sendto, fd, data.as_ptr(), data.len(), libc::MSG_NOSIGNAL, &sa as *const _, sl) };
+        if r < 0 { Err((-r) as i32) } else { Ok(r as usize) }
+    }
+    pub fn peer_udp_recvfrom(&mut self, fd: i32, buf: &mut [u8]) -> Result<(usize, Option<SocketAddr>), i32> {
+        let mut sa: libc::sockaddr_un = unsafe { std::mem::zeroed() };
+        let mut sl: u32 = std::mem::size_of::<libc::sockaddr_un>() as u32;
+        let r = unsafe { sys::sc!(libc::SYS_recvfrom, fd, buf.as_mut_ptr(), buf.len(), 0, &mut sa as *mut _, &mut sl as *mut u32) };
+        if r < 0 { return Err((-r) as i32); }
+        if let Some(a) = self.peer_udp.get(&fd).copied() {
+            let q = self.udp_qlen.entry(a).or_insert(0);
+            let was_full = self.udp_qlimit > 0 && *q >= self.udp_qlimit;
+            *q = q.saturating_sub(1);
+            if was_full { self.udp_wake_waiters(&a); }
+        }
+        Ok((r as usize, World::parse_name(&sys::un_name(&sa, sl))))
     }
 
     /// Before a data syscall by sozu on one of its simulated stream sockets.
